@@ -191,3 +191,175 @@ def normbased(clause):
             print('REPLAY: VIOLATION-CONFIRMED', bad)
             return
     print('REPLAY: not reproduced on %d finite inputs' % tried)
+
+
+def roundtrip(trials, clause, rounds=300):
+    """The real System.deconstruct / System.construct (called on a stub carrying trials, trial_shapes, dtype and the trial slices)
+    on random small inputs of the scenario; the clauses are recomputed with plain loops and counters."""
+    import types
+    from nutils import solver
+    rng = numpy.random.RandomState(0)
+    for _ in range(rounds):
+        names = ['u%d' % k for k in range(len(trials))]
+        ns = [int(rng.randint(0, 5)) for _ in trials]
+        offs = numpy.cumsum([0] + ns)
+        stub = types.SimpleNamespace(trials=tuple(names), trial_shapes=tuple((n,) for n in ns), dtype=float,
+                                     _System__trial_slices=tuple(slice(int(a), int(b)) for a, b in zip(offs, offs[1:])))
+        arguments, constrain, free, pres, guess = {'other': 'kept'}, {}, [], [], []
+        for name, n, (has_a, ck) in zip(names, ns, trials):
+            a = rng.randint(-9, 10, size=n).astype(float) if has_a else None
+            if ck == 'none':
+                F, p = numpy.ones(n, bool), numpy.full(n, nan)
+            elif ck == 'bool':
+                c = rng.randint(0, 2, size=n).astype(bool)
+                constrain[name] = c
+                F, p = ~c, (a.copy() if has_a else numpy.zeros(n))
+            else:
+                c = numpy.where(rng.randint(0, 2, size=n).astype(bool), rng.randint(20, 30, size=n).astype(float), nan)
+                constrain[name] = c
+                F, p = numpy.isnan(c), c.copy()
+            if has_a:
+                arguments[name] = a
+            free.append(F), pres.append(p), guess.append(None if a is None else a.copy())
+        what = 'deconstruct(arguments=%s, constrain=%s)' % ({k: (v.tolist() if hasattr(v, 'tolist') else v) for k, v in arguments.items()}, {k: v.tolist() for k, v in constrain.items()})
+        try:
+            args1, x = solver.System.deconstruct(stub, arguments, constrain)
+            y = 100. + numpy.arange(len(x))
+            args2 = solver.System.construct(stub, args1, y)
+        except Exception as e:
+            print(what, 'raised %s: %s' % (type(e).__name__, e))
+            print('REPLAY: VIOLATION-CONFIRMED consistent input was rejected with %s' % type(e).__name__)
+            return
+        bad, k = None, 0
+        if len(x) != sum(int(F.sum()) for F in free):
+            bad = 'len(x) = %d is not the number of free entries' % len(x)
+        if args2.get('other') != 'kept':
+            bad = 'a non-trial argument was lost'
+        for name, n, F, p, g in zip(names, ns, free, pres, guess):
+            v = args2[name]
+            if v.shape != (n,):
+                bad = bad or 'shape of %s changed' % name
+                break
+            for i in range(n):
+                if F[i]:
+                    if not bad and k < len(x) and g is not None and x[k] != g[i]:
+                        bad = 'x[%d] = %r is not the initial guess %s[%d] = %r' % (k, x[k], name, i, g[i])
+                    if not bad and k < len(x) and g is None and x[k] != 0:
+                        bad = 'x[%d] = %r is not zero (no initial guess)' % (k, x[k])
+                    if not bad and v[i] != 100. + k:
+                        bad = 'free entry %s[%d] = %r is not y[%d] = %r' % (name, i, v[i], k, 100. + k)
+                    k += 1
+                elif not bad and not (v[i] == p[i]):
+                    bad = 'constrained entry %s[%d] = %r differs from its prescribed value %r' % (name, i, v[i], p[i])
+        if bad:
+            print(what, '-> x = %s; construct(., y=%s) = %s' % (x.tolist(), y.tolist(), {k_: (v_.tolist() if hasattr(v_, 'tolist') else v_) for k_, v_ in args2.items()}))
+            print('REPLAY: VIOLATION-CONFIRMED', bad)
+            return
+    print('REPLAY: not reproduced on %d random inputs of the scenario' % rounds)
+
+
+def _lenient_matrix(outcome):
+    from nutils import matrix
+
+    class Stub(matrix.Matrix):
+        def __init__(self):
+            super().__init__((2, 2), float)
+
+        def solve(self, *args, **kwargs):
+            if outcome == 'ok':
+                return numpy.array([1., 2.])
+            if outcome == 'tolerance':
+                raise matrix.ToleranceNotReached(numpy.array([3., 4.]))
+            raise matrix.MatrixError('singular matrix')
+
+        def _submatrix(self, rows, cols):
+            return ('built for', rows.copy(), cols.copy())
+    return Stub()
+
+
+def solve_leniently(clause):
+    """The real Matrix.solve_leniently on a stub whose solve() returns, raises ToleranceNotReached(best) or raises MatrixError."""
+    from nutils import matrix
+    for outcome, want in (('ok', [1., 2.]), ('tolerance', [3., 4.]), ('error', None)):
+        A = _lenient_matrix(outcome)
+        try:
+            got = A.solve_leniently(numpy.zeros(2), atol=1e-3)
+        except matrix.ToleranceNotReached as e:
+            print('solve() raised ToleranceNotReached; solve_leniently let it through')
+            print('REPLAY: VIOLATION-CONFIRMED ToleranceNotReached is not swallowed')
+            return
+        except matrix.MatrixError:
+            if want is None:
+                continue
+            print('REPLAY: VIOLATION-CONFIRMED MatrixError although solve() %s' % outcome)
+            return
+        except Exception as e:
+            print('solve() outcome %r: solve_leniently raised %s: %s' % (outcome, type(e).__name__, e))
+            print('REPLAY: VIOLATION-CONFIRMED escaped with %s (neither a result nor a MatrixError)' % type(e).__name__)
+            return
+        if want is None or not isinstance(got, numpy.ndarray) or got.tolist() != want or not numpy.isfinite(got).all():
+            print('solve() outcome %r: solve_leniently returned %r, expected %r' % (outcome, got, want))
+            print('REPLAY: VIOLATION-CONFIRMED the result is not the result of solve / the best of the swallowed ToleranceNotReached')
+            return
+    print('REPLAY: not reproduced')
+
+
+def submatrix(clause):
+    """The real Matrix.submatrix (cache guard) on a stub whose _submatrix records the masks it was built for; all sequences of
+    three requests over masks of a 2 x 2 matrix."""
+    masks = [numpy.array(m) for m in itertools.product([False, True], repeat=2)]
+    reqs = list(itertools.product(masks, masks))
+    for seq in itertools.product(reqs, repeat=3):
+        if sum(1 for s in seq if s is not seq[0]) == 0:
+            continue
+        A = _lenient_matrix('ok')
+        for rows, cols in seq:
+            got = A.submatrix(rows, cols)
+            if got is A:
+                ok = rows.all() and cols.all()
+            else:
+                ok = isinstance(got, tuple) and (got[1] == rows).all() and (got[2] == cols).all() and not (rows.all() and cols.all())
+            if not ok:
+                print('requests %s: submatrix(rows=%s, cols=%s) returned %r' % ([(r.tolist(), c.tolist()) for r, c in seq], rows.tolist(), cols.tolist(), got if got is not A else 'self'))
+                print('REPLAY: VIOLATION-CONFIRMED the returned submatrix was not built for the requested rows and cols')
+                return
+    print('REPLAY: not reproduced')
+
+
+def step(clause):
+    """The real System.step on a stub system whose solve() fails on the listed attempts; checks that a (bisected) step ends at
+    t + timestep, that solve is posed on sub-intervals of [t, t + timestep] and that only solver/matrix errors are retried."""
+    from nutils import solver, matrix
+    for failing, exc in itertools.product([(), (0,), (0, 1), (0, 2)], [solver.SolverError, matrix.MatrixError, ValueError]):
+        calls = []
+
+        class Stub:
+            trials = ('u',)
+            arguments = frozenset({'t', 'u'})
+
+            def solve(self, *, arguments, **kw):
+                calls.append((arguments.get('t0'), arguments['t']))
+                if len(calls) - 1 in failing:
+                    raise exc('attempt %d fails' % len(calls))
+                return {**arguments, 'u': arguments['u'] + 1}
+            step = solver.System.step
+        what = 'System.step(arguments={t: 0, u: 10}, suffix=0, timearg=t, timestep=1, maxretry=2) with solve() raising %s on attempts %s' % (exc.__name__, list(failing))
+        try:
+            out = Stub().step(arguments={'t': 0., 'u': 10}, suffix='0', timearg='t', timestep=1., maxretry=2)
+        except (solver.SolverError, matrix.MatrixError):
+            continue
+        except ValueError:
+            if exc is ValueError and failing and len(calls) == 1:
+                continue
+            print(what, '\nsolve was called on (t0, t) =', calls)
+            print('REPLAY: VIOLATION-CONFIRMED a ValueError of solve() was retried instead of propagated')
+            return
+        if exc is ValueError and failing:
+            print(what, '\nsolve was called on (t0, t) =', calls, 'and step returned', out)
+            print('REPLAY: VIOLATION-CONFIRMED an exception that is neither SolverError nor MatrixError was swallowed by a retry')
+            return
+        if out['t'] != 1. or any(not (0. <= a < b <= 1.) for a, b in calls):
+            print(what, '\nsolve was called on the intervals (t0, t) =', calls, '; step returned t = %r' % out['t'])
+            print('REPLAY: VIOLATION-CONFIRMED the bisected step does not cover [t, t + timestep]: it ends at t = %r instead of 1.0' % out['t'])
+            return
+    print('REPLAY: not reproduced')
